@@ -27,3 +27,4 @@ UNITS += _MN3.UNITS
 
 from props.c03_ext2 import UNITS as _U2; UNITS = UNITS + _U2
 from props.c03_ext3 import UNITS as _U3; UNITS = UNITS + _U3
+from props.c03_ext5 import UNITS as _U5; UNITS = UNITS + _U5
